@@ -495,6 +495,12 @@ class SSHChannel(Generic[AnyStr], SSHPacketHandler):
     def _report_response(self, result: bool) -> None:
         """Report back the response to a previously issued channel request"""
 
+        if not self._conn:
+            # The channel was closed while the request was being
+            # processed, so the requests queued behind it are dropped
+            self._request_queue = []
+            return
+
         request, _, want_reply = self._request_queue.pop(0)
 
         if want_reply and self._send_state not in {'close_pending', 'closed'}:
